@@ -43,6 +43,11 @@ __datatypes_constructors = {}
 __datatypes_selectors = {}
 
 
+def __no_comments(children):
+    """Return ``children`` without the comments among them."""
+    return [c for c in children if not (c.is_leaf() and c.data[:1] == ';')]
+
+
 def __formal_names(params):
     """Return the names in the parameter list ``((p S) ...)``."""
     if params.is_leaf():
@@ -190,7 +195,7 @@ def collect_information(exprs):  # noqa: C901
                     __datatypes_constants.setdefault(sort, [])
                     __datatypes_constants[sort].append(constr[0])
                 else:
-                    for id, sel in enumerate(constr[1:]):
+                    for id, sel in enumerate(__no_comments(constr[1:])):
                         if sel.is_leaf() or len(sel) == 0:
                             continue
                         __datatypes_selectors[sel[0]] = (constr[0], id)
@@ -227,7 +232,7 @@ def collect_information(exprs):  # noqa: C901
                         __datatypes_constants.setdefault(sorts[id], [])
                         __datatypes_constants[sorts[id]].append(constr[0])
                     else:
-                        for i, sel in enumerate(constr[1:]):
+                        for i, sel in enumerate(__no_comments(constr[1:])):
                             if sel.is_leaf() or len(sel) == 0:
                                 continue
                             __datatypes_selectors[sel[0]] = (constr[0], i)
@@ -394,6 +399,17 @@ def without_comments(node):
             res.append([])
             stack.extend((c, False) for c in reversed(cur.data))
     return res[0][0] if res[0] else None
+
+
+def has_comment_operand(node):
+    """Return true if ``node`` is a list with a comment among its children.
+
+    Comments are kept as leaves of the tree. Every mutator addresses the
+    children of a node by position, so it would take the comment for an
+    operand; such a node is left alone until the comment has been erased.
+    """
+    return not node.is_leaf() and any(
+        c.is_leaf() and c.data[:1] == ';' for c in node)
 
 
 def is_piped_symbol(node):
@@ -691,6 +707,9 @@ def get_sort(node):
 
     if node.id in __get_sort_cache:
         return __get_sort_cache[node.id]
+    if has_comment_operand(node):
+        # the comment shifts the positions of the operands
+        return None
     # equal compound terms have equal sorts; a leaf may be an index in one
     # place and a term in another
     if not node.is_leaf() and node in __get_sort_cache:
